@@ -26,6 +26,23 @@ for tc in tree.iter('testcase'):
     if not any(ch.tag in ('failure', 'error', 'skipped') for ch in tc):
         passed.add(name)
 missing = sorted(stable - passed)
+if missing and len(missing) <= 40:
+    # the suite runs over real sockets and real sleeps: retry non-passing stable tests once, alone
+    ids = []
+    for m in missing:
+        mod, name = m.split('::', 1)
+        ids.append(mod.replace('.', '/') + '.py::' + name)
+    out2 = tempfile.mktemp(suffix='.junit.xml', dir=os.environ.get('TMPDIR', '/tmp'))
+    subprocess.run(['/venv/bin/python', '-m', 'pytest', '-q', '-p', 'no:cacheprovider', '--timeout=600',
+                    '--junitxml=' + out2] + ids, cwd='/repo', env=env, capture_output=True, text=True)
+    if os.path.exists(out2):
+        for tc in ET.parse(out2).iter('testcase'):
+            name = '%s::%s' % (tc.get('classname'), tc.get('name'))
+            if not any(ch.tag in ('failure', 'error', 'skipped') for ch in tc):
+                passed.add(name)
+                print('passed on isolated retry:', name)
+        os.unlink(out2)
+    missing = sorted(stable - passed)
 print('stable=%d passed_of_stable=%d not_passed=%d total_seen=%d' % (len(stable), len(stable & passed), len(missing), len(seen)))
 for m in missing:
     print('NOT PASSED:', m)
